@@ -347,6 +347,9 @@ def settle(r):
     computed, block mass parameters as processLoading would compute them"""
     from armi.reactor.components import Component
 
+    # derived values cached on the live objects (Block.getArea keeps the symmetry factor of the place the block had when it
+    # was first asked: a central Cartesian assembly moved to the pool still reports 1/4 of its area) are not reactor state
+    r.clearCache()
     for o in walk(r):
         if isinstance(o, Component):
             o.getVolume()
@@ -1048,7 +1051,8 @@ def run(rep, tier, seed):
         "I4 Assembly.add re-indexes blocks: local indices are compared (the file stores complete indices)",
         "I5 grids are compared by class, unit steps, bounds, limits, offset, public geomType and symmetry; the private spelling "
         "'hex_corners_up' (reduce()) comes back as 'hex' and is not counted as a difference; layout/grids must hold reduce() literally",
-        "the driver settles the reactor before observing it (Component.getVolume, Core.setBlockMassParams) as DESIGN C04 prescribes; "
+        "the driver settles the reactor before observing it (clearCache, Component.getVolume, Core.setBlockMassParams) as DESIGN C04 "
+        "prescribes: lazily cached derived values of the live objects are not reactor state; "
         "maxAssemNum (reset by Core.processLoading) and serialNum (the node identity) are not compared as parameters",
         "AssignParam replaces numeric / 1-d real-array parameter values only; parameters without default: zrFrac, buRate only",
     )
